@@ -1068,7 +1068,7 @@ radius_pkt_attr_add(rad_pkt_hdr_p pkt, size_t pkt_buf_size, size_t *pkt_size_ret
 		/* Calc size. */
 		error = radius_pkt_attr_password_encode(NULL, NULL, len, NULL, 0,
 		    NULL, 0, &tm);
-		if (0 != error)
+		if (0 != error && EOVERFLOW != error) /* EOVERFLOW: size query only. */
 			return (error);
 		/* Add attribute with empty data. */
 		error = radius_pkt_attr_alloc_raw(pkt, pkt_buf_size, pkt_size_ret,
